@@ -146,7 +146,12 @@ func init() {
 		return nil
 	})
 	register("(time.Time).Sub", func(m *Machine, fr *frame, fn *ssa.Function, args []Value) Value {
-		return m.F.Const(64, 0) // contract: opaque instants, elapsed time is 0 (as time.Since)
+		_, o1 := args[0].(*Opaque)
+		_, o2 := args[1].(*Opaque)
+		if o1 || o2 {
+			return m.F.Const(64, 0) // contract: opaque instants (time.Now), elapsed time is 0 (as time.Since)
+		}
+		return runRealBody{}
 	})
 	register("time.Since", func(m *Machine, fr *frame, fn *ssa.Function, args []Value) Value {
 		return m.F.Const(64, 0)
